@@ -66,9 +66,9 @@ def in_div_wide(tier):
 def in_div(tier):
     for l, f in ((8, 4), (12, 6)) if tier != 'quick' else ((8, 4),):
         one = 1 << f; half = 1 << (l - 1)
-        for b in range(-half, half):
+        for b in range(-half, half, 1 if l <= 8 else 5):
             if b == 0: continue
-            for a in range(-half, half, (1 if l <= 8 else 29) if tier != 'quick' else 7):
+            for a in range(-half, half, (1 if l <= 8 else 97) if tier != 'quick' else 7):
                 q = Fraction(a, b)
                 if abs(q) * one < half - 16 * (one + abs(a)) / one - 1:      # result (and its error margin) in range
                     yield (l, f, a, b)
@@ -119,7 +119,7 @@ def ck_sincos(args, res, exc):
 def in_sincos(tier):
     for l, f in ((10, 5), (16, 8)) if tier != 'quick' else ((10, 5),):
         half = 1 << (l - 1)
-        for a in range(-half, half, 1 if tier != 'quick' else 3): yield (l, f, a)
+        for a in range(-half, half, (1 if l <= 10 else 7) if tier != 'quick' else 3): yield (l, f, a)
     # large arguments (sampled)
     import random
     rnd = random.Random(11)
@@ -248,9 +248,9 @@ NATIVE = {n.name: n for n in [
     Native('fxp_div_f8', 'mpyc.runtime.Runtime.div/_rec/_norm', call_div, ck_div, in_div_f8,
            'SecFxp(16,8), SecFxp(24,12) (thorough + SecFxp(32,16)): 36 divisors (1..23 units, around 1/2, 1, 3, -5, max/3) x 17 (51) dividends, quotient in range'),
     Native('fxp_div_wide', 'mpyc.runtime.Runtime.div/_rec/_norm', call_div, ck_div, in_div_wide, 'SecFxp(12,4), (16,6), (32,14), (64,16): 8 quotients each'),
-    Native('fxp_div', 'mpyc.runtime.Runtime.div/_rec/_norm', call_div, ck_div, in_div, 'SecFxp(8,4): all divisors, every 7th dividend (thorough: all pairs, + SecFxp(12,6) all divisors, every 29th dividend); results in range'),
+    Native('fxp_div', 'mpyc.runtime.Runtime.div/_rec/_norm', call_div, ck_div, in_div, 'SecFxp(8,4): all divisors, every 7th dividend (thorough: all pairs, + SecFxp(12,6) every 5th divisor, every 97th dividend); results in range'),
     Native('fxp_reciprocal', 'mpyc.runtime.Runtime._rec/_norm', call_rec, ck_rec, in_rec, 'SecFxp(8,4), (12,6) (thorough + (16,8)): all representable y with 1/y in range'),
-    Native('fxp_sincos', 'mpyc.runtime.Runtime.sincos', call_sincos, ck_sincos, in_sincos, 'SecFxp(10,5): every 3rd representable x (thorough: all, + (16,8) all); SecFxp(16,8), SecFxp(20,8): extremes + 40 (400) sampled arguments'),
+    Native('fxp_sincos', 'mpyc.runtime.Runtime.sincos', call_sincos, ck_sincos, in_sincos, 'SecFxp(10,5): every 3rd representable x (thorough: all, + (16,8) every 7th); SecFxp(16,8), SecFxp(20,8): extremes + 40 (400) sampled arguments'),
     Native('fxp_pow', 'mpyc.runtime.Runtime.pow (fixed point)', call_pow, ck_pow, in_pow, 'SecFxp(12,4): n in {2,3,4}, every 5th x with x**n in range (thorough: all, + (16,6))'),
     Native('int_gcd_family', 'mpyc.runtime.Runtime.gcd/lcm/gcdext/inverse/_gcd/_divsteps', call_gcd, ck_gcd, in_gcd, 'all pairs of 4-bit (thorough 5-bit) integers'),
     Native('field_conversions', 'mpyc.runtime.Runtime.convert/_convert (secure fields)', call_conv, ck_conv, in_conv, 'GF(q) for q in {2,3,7,11,101,251}, signed and unsigned, all (sampled for q > 20) elements'),
